@@ -12,8 +12,8 @@ inductive StdOp
 inductive Arith | add | sub | mul | div | rem deriving DecidableEq, Repr
 
 structure IntTy where (lo hi : Int)
-def U64 : IntTy := ⟨0, 2^64 - 1⟩
-def I64 : IntTy := ⟨-(2^63), 2^63 - 1⟩
+def TyU64 : IntTy := ⟨0, 2^64 - 1⟩
+def TyI64 : IntTy := ⟨-(2^63), 2^63 - 1⟩
 def IntTy.fits (t : IntTy) (x : Int) : Prop := t.lo ≤ x ∧ x ≤ t.hi
 instance (t : IntTy) (x : Int) : Decidable (t.fits x) := by unfold IntTy.fits; infer_instance
 def IntTy.chk (t : IntTy) (x : Int) : Option Int := if t.fits x then some x else none
